@@ -44,7 +44,7 @@ Out(comb, items, n, pred, key) ==
     [] comb = "First" -> Wrap(FirstF(s, n))
     [] comb \in {"Flatten", "FlattenSlices", "Join"} -> Wrap(Flat(items))
     [] comb = "Map" -> Wrap(MapF(s))
-    [] comb = "Runs" -> RunsF(s, key)
+    [] comb \in {"Runs", "RunsStale"} -> RunsF(s, key)   \* RunsStale: handles of earlier runs are polled again and add nothing
     [] comb = "RunsHeads" -> LET rs == RunsF(s, key) IN [i \in 1..Len(rs) |-> <<rs[i][1]>>]
     [] comb = "While" -> Wrap(SubSeq(s, 1, WhileLen(s, pred)))
 \* ---- value of a reducer (as a list)
@@ -64,7 +64,7 @@ NeedOut(comb, items, n, pred, key, j) ==
     [] comb = "Compact" -> SetSeq(CompactIdx(s, key))[j]
     [] comb = "CompactEq" -> SetSeq(CompactIdx(s, [v \in 1..3 |-> v]))[j]
     [] comb = "Filter" -> SetSeq(FilterIdx(s, pred))[j]
-    [] comb = "Runs" -> Min(Len(s), SetSeq(RunEnds(s, key))[j] + 1)
+    [] comb \in {"Runs", "RunsStale"} -> Min(Len(s), SetSeq(RunEnds(s, key))[j] + 1)
     [] comb = "RunsHeads" -> Min(Len(s), SetSeq(RunEnds(s, key))[j] + 1)
     [] OTHER -> j
 NeedEnd(comb, items, n, pred, key) ==
